@@ -51,3 +51,15 @@ Theorem C17_faulty_operand_is_reported : forall ps ts st i k e, (k < List.length
   In (argerr_msg e (i + k)) (check_arglist ps ts st i).
 Proof. exact faulty_operand_is_reported. Qed.
 Print Assumptions C17_faulty_operand_is_reported.
+
+(* ---- the caret line --------------------------------------------------------------------------------------- *)
+From Coq Require Import ZArith List.
+From Hera.Model Require Import Caret.
+From Hera.Proofs Require Import C17_Caret.
+
+(* printed after the same indentation as the quoted line, the white space of align_caret brings the caret to
+   the display column of the character in the reported column — for every distance w between tab stops *)
+Theorem C17_caret_under_column : forall w line col at_,
+  layout w at_ (align_caret line col) = layout w at_ (firstn (Z.to_nat (col - 1)) line).
+Proof. exact caret_under_column. Qed.
+Print Assumptions C17_caret_under_column.
